@@ -2314,6 +2314,147 @@ def wildcards_part(ctx: Ctx) -> None:
     ctx.extra['wildcards'] = {'schemas_built': built, 'combinations': len(combos)}
 
 
+# ------------------------------------------------------------------------------------------------
+# XSD 1.1 XPath tests that can raise DYNAMIC errors at validation time: assertion facets, xs:assert, type alternatives,
+# identity fields — a small grammar of expressions × instance values that trigger / do not trigger the error
+
+# (kind, template over the operand expressions {A} {B}, [(value of A, value of B) that triggers, one that does not])
+XDYN_TEMPLATES = [
+    ('div0', 'xs:integer({A}) idiv xs:integer({B}) gt 5', [('7', '0'), ('70', '1')]),
+    ('div0', 'xs:integer({A}) div xs:integer({B}) gt 5', [('7', '0'), ('7', '1')]),
+    ('div0', 'xs:integer({A}) mod xs:integer({B}) eq 0', [('7', '0'), ('8', '2')]),
+    ('div0', 'xs:decimal({A}) div xs:decimal({B}) gt 1', [('1.5', '0.0'), ('3', '2')]),
+    ('div0', 'xs:double({A}) idiv xs:double({B}) gt 1', [('INF', '1'), ('9', '2')]),
+    ('date-range', "xs:date({A}) + xs:yearMonthDuration('P9999Y') lt xs:date('2000-01-01')", [('9999-01-01', ''), ('1999-01-01', '')]),
+    ('date-range', "xs:date({A}) - xs:dayTimeDuration('P9999999D') gt xs:date('1000-01-01')", [('0001-01-01', ''), ('9999-01-01', '')]),
+    ('date-range', "xs:dateTime({A}) + xs:dayTimeDuration({B}) gt xs:dateTime('2000-01-01T00:00:00')", [('9999-12-31T23:59:59', 'P9999999D'), ('2001-01-01T00:00:00', 'PT1S')]),
+    ('date-range', "xs:yearMonthDuration({A}) * xs:integer({B}) gt xs:yearMonthDuration('P1Y')", [('P99999999Y', '99999999999'), ('P1Y', '2')]),
+    ('date-range', "xs:dayTimeDuration({A}) div xs:dayTimeDuration({B}) gt 1", [('P1D', 'PT0S'), ('P2D', 'P1D')]),
+    ('cast', 'xs:integer({A}) gt 3', [('x', ''), ('7', '')]),
+    ('cast', "xs:date({A}) lt xs:date('2000-01-01')", [('2000-02-30', ''), ('1999-01-01', '')]),
+    ('cast', "xs:date('bad') lt xs:date({A})", [('1999-01-01', ''), ('1999-01-01', '')]),
+    ('cast', 'xs:double({A}) gt xs:float({B})', [('1e', 'abc'), ('1e3', '2')]),
+    ('cast', 'xs:boolean({A}) and xs:hexBinary({B}) eq xs:hexBinary("0A")', [('maybe', 'zz'), ('true', '0A')]),
+    ('big', 'xs:integer({A}) * xs:integer({A}) * xs:integer({A}) * xs:integer({A}) gt xs:integer({B})', [('99999999999999999999999999', '1'), ('2', '1')]),
+    ('big', 'xs:double({A}) * 1e308 * xs:double({B}) gt 0', [('1e308', '1e308'), ('1', '1')]),
+    ('big', 'xs:int({A}) + xs:byte({B}) gt 0', [('99999999999', '300'), ('1', '1')]),
+    ('big', 'xs:decimal({A}) * xs:decimal({B}) gt 0', [('1e400', '1'), ('1.5', '2')]),
+    ('strnum', 'number({A}) gt 1 or sum((xs:integer({A}), xs:integer({B}))) gt 0', [('x', 'y'), ('2', '3')]),
+    ('strnum', 'avg((xs:integer({A}), xs:integer({B}))) gt 0 and max(({A}, 1)) gt 0', [('x', '1'), ('2', '3')]),
+    ('strnum', "codepoints-to-string(xs:integer({A})) eq 'a' or substring({B}, xs:integer({A})) eq ''", [('0', 'abc'), ('97', 'abc')]),
+    ('strnum', 'string-to-codepoints({A})[1] idiv string-length({B}) gt 1', [('a', ''), ('a', 'b')]),
+    ('regex', "matches('abc', {A})", [('[', ''), ('b', '')]),
+    ('regex', "replace('abc', {A}, {B}) eq 'x'", [('(a', '$9'), ('b', 'x')]),
+    ('regex', "tokenize('a b', {A}) = 'a' or matches({B}, '^a', {A})", [('', 'x'), (' ', 'a')]),
+    ('emptyseq', '({Z} + 1) gt 0', [('', ''), ('', '')]),
+    ('emptyseq', 'xs:integer({Z}) idiv xs:integer({A}) eq 1', [('0', ''), ('1', '')]),
+    ('emptyseq', '{Z} idiv 2 eq 1 or xs:date({Z}) lt xs:date({A})', [('x', ''), ('1999-01-01', '')]),
+    ('type-error', '{A} + 1 gt 0', [('x', ''), ('1', '')]),
+    ('type-error', "({A}, {B}) eq 'a'", [('a', 'b'), ('a', 'a')]),
+    ('type-error', "xs:date({A}) lt {B}", [('1999-01-01', 'x'), ('1999-01-01', '2000-01-01')]),
+]
+XDYN_VALUES = ['7', '0', '8', 'x', '', '9999-01-01', '1999-01-01', '-1', '99999999999999999999', '1e400', '[', '(a', 'P1Y', 'PT0S', '0.0',
+               'NaN', 'INF', ' 7 ', '2000-02-30', '0001-01-01', 'P99999999Y', '-0', '١٢', 'a' * 3000]
+XDYN_FIELD_TYPES = ['xs:date', 'xs:integer', 'xs:duration', 'xs:double', 'xs:gYear', 'xs:dateTime', 'xs:decimal', 'xs:QName', 'xs:gYearMonth']
+XDYN_SITES = ['facet', 'facet-attr', 'assert', 'assert-child', 'alternative', 'identity']
+
+
+def xdyn_xsd(params: dict) -> str:
+    site, test = params['site'], params.get('test', '')
+    test = test.replace('&', '&amp;').replace('<', '&lt;').replace('"', '&quot;')
+    head = '<xs:schema xmlns:xs="http://www.w3.org/2001/XMLSchema">'
+    if site in ('facet', 'facet-attr'):
+        t = '<xs:simpleType name="T"><xs:restriction base="xs:string"><xs:assertion test="%s"/></xs:restriction></xs:simpleType>' % test
+        if site == 'facet':
+            return head + t + '<xs:element name="r" type="T"/></xs:schema>'
+        return head + t + '<xs:element name="r"><xs:complexType><xs:attribute name="n" type="T"/><xs:attribute name="m"/></xs:complexType></xs:element></xs:schema>'
+    if site == 'assert':
+        return head + ('<xs:element name="r"><xs:complexType><xs:attribute name="n"/><xs:attribute name="m"/>'
+                       '<xs:assert test="%s"/></xs:complexType></xs:element></xs:schema>' % test)
+    if site == 'assert-child':
+        return head + ('<xs:element name="r"><xs:complexType><xs:sequence><xs:element name="n" type="xs:string" minOccurs="0"/>'
+                       '<xs:element name="m" type="xs:string" minOccurs="0"/></xs:sequence><xs:assert test="%s"/></xs:complexType></xs:element></xs:schema>' % test)
+    if site == 'alternative':
+        return head + ('<xs:complexType name="B"><xs:simpleContent><xs:extension base="xs:string"><xs:attribute name="n"/><xs:attribute name="m"/>'
+                       '</xs:extension></xs:simpleContent></xs:complexType>'
+                       '<xs:complexType name="B2"><xs:simpleContent><xs:restriction base="B"><xs:maxLength value="1"/></xs:restriction></xs:simpleContent></xs:complexType>'
+                       '<xs:element name="r" type="B"><xs:alternative test="%s" type="B2"/></xs:element></xs:schema>' % test)
+    # identity: the field values are extracted by the XPath machinery with the declared type applied
+    ft = params['ftype']
+    return head + ('<xs:element name="r"><xs:complexType><xs:sequence><xs:element name="i" maxOccurs="unbounded"><xs:complexType>'
+                   '<xs:simpleContent><xs:extension base="%s"><xs:attribute name="n" type="%s"/></xs:extension></xs:simpleContent></xs:complexType></xs:element>'
+                   '</xs:sequence></xs:complexType><xs:%s name="k"><xs:selector xpath="%s"/><xs:field xpath="%s"/>%s</xs:%s></xs:element></xs:schema>'
+                   % (ft, ft, params['ic'], params['sel'], params['fld'], '<xs:field xpath="."/>' if params.get('two') else '', params['ic']))
+
+
+def xdyn_operands(site: str) -> dict:
+    if site in ('facet', 'facet-attr'):
+        # one operand only: B is derived from the value itself (… - 7: the value 7 divides by zero)
+        return {'A': '$value', 'B': 'string(xs:integer($value) - 7)', 'Z': '()'}
+    if site == 'assert-child':
+        return {'A': 'n', 'B': 'm', 'Z': 'zz'}
+    return {'A': '@n', 'B': '@m', 'Z': '@zz'}
+
+
+def xdyn_doc(site: str, a: Optional[str], b: Optional[str]) -> str:
+    ea = lambda v: esc_attr(v).replace('>', '&gt;')   # noqa
+    if site == 'facet':
+        return '<r>%s</r>' % ea(a or '')
+    if site == 'assert-child':
+        return '<r>%s%s</r>' % ('' if a is None else '<n>%s</n>' % ea(a), '' if b is None else '<m>%s</m>' % ea(b))
+    if site == 'identity':
+        return '<r><i n="%s">%s</i><i n="%s">%s</i><i>%s</i></r>' % (ea(a or ''), ea(b or ''), ea(b or ''), ea(a or ''), ea(a or ''))
+    text = 'xx' if site == 'alternative' else ''
+    return '<r%s%s>%s</r>' % ('' if a is None else ' n="%s"' % ea(a), '' if b is None else ' m="%s"' % ea(b), text)
+
+
+def xdyn_schema(params: dict) -> Any:
+    import xmlschema
+    return xmlschema.XMLSchema11(xdyn_xsd(params))
+
+
+def xpath_dyn_part(ctx: Ctx) -> None:
+    rng = ctx.rng
+    seen: dict = {}
+    eps_names = ('is_valid', 'iter_errors', 'validate', 'decode:strict', 'decode:lax', 'decode:skip', 'lazy.iter_errors', 'lazy.decode:lax', 'lazy.is_valid')
+    stats = {'schemas_built': 0, 'schemas_refused': 0, 'documents': 0}
+    jobs: list[tuple[dict, str, list[tuple[Optional[str], Optional[str]]]]] = []
+    for site in XDYN_SITES[:-1]:
+        ops = xdyn_operands(site)
+        for kind, tmpl, pairs in XDYN_TEMPLATES:
+            if site.startswith('facet') and kind == 'emptyseq' and '{A}' not in tmpl:
+                continue
+            test = tmpl.replace('{A}', ops['A']).replace('{B}', ops['B']).replace('{Z}', ops['Z'])
+            vals: list[tuple[Optional[str], Optional[str]]] = list(pairs)
+            for _ in range(ctx.pick(3, 14)):
+                vals.append((rng.choice(XDYN_VALUES + [None]), rng.choice(XDYN_VALUES + [None])))
+            if site.startswith('facet'):
+                vals.append(('7', None))              # … - 7: division by zero / zero-length operand
+            jobs.append(({'site': site, 'kind': kind, 'test': test}, kind, vals))
+    for ft in XDYN_FIELD_TYPES:
+        for ic, sel, fld, two in (('unique', 'i', '@n', False), ('key', 'i', '@n', True), ('unique', './/i', '.', False), ('unique', '*', '@n', True)):
+            vals = [(rng.choice(XDYN_VALUES), rng.choice(XDYN_VALUES)) for _ in range(ctx.pick(2, 8))]
+            vals += [('99999999999999999999-01-01', '4294967296-01-01'), ('1e400', 'P99999999999999999999Y')]
+            jobs.append(({'site': 'identity', 'kind': 'field:' + ft, 'ftype': ft, 'ic': ic, 'sel': sel, 'fld': fld, 'two': two}, 'field:' + ft, vals))
+    for params, kind, vals in jobs:
+        site = params['site']
+        o = call(lambda: xdyn_schema(params))
+        ctx.count('xpath-dyn-schema:%s' % (o.get('exc') or 'built'))
+        if o['class'] != 'verdict':
+            stats['schemas_refused'] += 1       # (a static error of the expression: schema construction is not C11's subject)
+            continue
+        schema = xdyn_schema(params)
+        stats['schemas_built'] += 1
+        sname = 'xdyn:' + json.dumps(params, sort_keys=True)
+        eps = [e for e in fuzz_entry_points(schema) if e[0] in eps_names]
+        for a, b in vals:
+            xml = xdyn_doc(site, a, b)
+            stats['documents'] += 1
+            ctx.count('xpath-dyn:%s:%s' % (site, kind))
+            fuzz_case(ctx, schema, sname, xml.encode('utf-8'), 'xpath-dyn:%s:%s' % (site, kind), seen, entry_points=eps)
+    ctx.extra['xpath_dyn'] = dict(stats, templates=len(XDYN_TEMPLATES), sites=XDYN_SITES, exception_classes_seen=dict(sorted(seen.items())))
+
+
 def policy_part(ctx: Ctx, drv: Optional[Driver], obs: Optional[PolicyObs]) -> None:
     """Tie of the raise-site policy (Model/RaisePolicy.lean) with what the raise statements of xmlschema/validators did
     during the fuzz run: (a) every executed statement is one the model says is executed in that (local) mode;
@@ -2404,6 +2545,7 @@ def run(ctx: Ctx, driver_ok: bool) -> None:
             options_part(ctx)
             lists_part(ctx)
             wildcards_part(ctx)
+            xpath_dyn_part(ctx)
         finally:
             STATE_MON['mon'] = STATE_MON['obs'] = None
     policy_part(ctx, drv, obs)
@@ -2493,6 +2635,8 @@ def replay(ctx: Ctx, obj: dict) -> int:
             schema = xmlschema.XMLSchema10(str(d[sname.split(':', 1)[1]]))
         elif sname.startswith('wild:'):
             schema = wild_schema(json.loads(sname[5:]))
+        elif sname.startswith('xdyn:'):
+            schema = xdyn_schema(json.loads(sname[5:]))
         elif sname.startswith('recursive'):
             schema = xmlschema.XMLSchema10(RECURSIVE_XSD)
             State.d0 = measure_d0(schema)
